@@ -1101,10 +1101,210 @@ fn decode_table(rep: &mut SearchReport) -> Result<(), String> {
     Ok(())
 }
 
+// ---------------------------------------------------------------------------------------------
+// configuration pass-through: retry strategy (timing of reconnect attempts) and serial settings
+// (termios of a pty opened through the C ABI vs. through the Rust API with same-named values)
+
+extern "C" fn timed_state_change(state: c_int, ctx: *mut c_void) {
+    unsafe {
+        let p = ctx as *const Mutex<Vec<(Instant, i32)>>;
+        if let Ok(mut g) = (*p).lock() {
+            g.push((Instant::now(), state));
+        }
+    }
+}
+
+fn retry_passthrough(rep: &mut SearchReport) -> Result<(), String> {
+    let frt = FfiRuntime::new(2)?;
+    let port = free_port();
+    let log: Arc<Mutex<Vec<(Instant, i32)>>> = Default::default();
+    let listener = ffi::ClientStateListener {
+        on_change: Some(timed_state_change),
+        on_destroy: Some(h_destroy),
+        ctx: Arc::into_raw(log.clone()) as *mut c_void,
+    };
+    let mut out: *mut rodbus_ffi::ClientChannel = std::ptr::null_mut();
+    let host = cstr("127.0.0.1");
+    let (min_ms, max_ms) = (40u64, 130u64);
+    let rc = unsafe {
+        ffi::rodbus_client_channel_create_tcp(frt.0, host.as_ptr(), port, 4, retry_strategy(min_ms, max_ms), decode_level(0, 0, 0), listener, &mut out)
+    };
+    if rc != 0 {
+        return Err(format!("create_tcp returned {}", rc));
+    }
+    unsafe { ffi::rodbus_client_channel_enable(out) };
+    std::thread::sleep(Duration::from_millis(40 + 80 + 130 + 130 + 120));
+    let states = log.lock().unwrap().clone();
+    unsafe { ffi::rodbus_client_channel_destroy(out) };
+    // gaps between a WaitAfterFailedConnect (3) and the next Connecting (1)
+    let mut gaps = Vec::new();
+    for w in states.windows(2) {
+        if w[0].1 == 3 && w[1].1 == 1 {
+            gaps.push(w[1].0.duration_since(w[0].0));
+        }
+    }
+    rep.stats.evaluations += 1;
+    let expect = [40u64, 80, 130, 130];
+    let case = json!({"table": "retry_strategy", "min_ms": min_ms, "max_ms": max_ms});
+    if gaps.len() < 3 {
+        return Err(format!("INFRA: only {} reconnect waits observed through the C listener", gaps.len()));
+    }
+    for (i, g) in gaps.iter().take(4).enumerate() {
+        let e = Duration::from_millis(expect[i]);
+        if *g + Duration::from_millis(2) < e || *g > e + Duration::from_millis(60) {
+            fail(
+                rep,
+                format!(
+                    "retry strategy (min {} ms, max {} ms) passed through the C ABI: wait no. {} lasted {:?}, the Rust strategy with the same values waits {:?}",
+                    min_ms, max_ms, i + 1, g, e
+                ),
+                case,
+            );
+            return Ok(());
+        }
+    }
+    rep.stats.nontrivial_total += 1;
+    rep.stats.distinct.insert(crate::runner::hash_of(&format!("{}", case)));
+    Ok(())
+}
+
+struct PortRec {
+    tx: std::sync::mpsc::Sender<String>,
+}
+impl Listener<rodbus::client::PortState> for PortRec {
+    fn update(&mut self, value: rodbus::client::PortState) -> MaybeAsync<()> {
+        let _ = self.tx.send(format!("{:?}", value));
+        MaybeAsync::ready(())
+    }
+}
+
+extern "C" fn port_state_change(state: c_int, ctx: *mut c_void) {
+    unsafe {
+        let p = ctx as *const Mutex<Vec<i32>>;
+        if let Ok(mut g) = (*p).lock() {
+            g.push(state);
+        }
+    }
+}
+
+fn serial_settings_table(rep: &mut SearchReport) -> Result<(), String> {
+    use crate::net::pty::Pty;
+    let rt = crate::net::rt(2);
+    let frt = FfiRuntime::new(2)?;
+    let bauds = [9600u32, 19200, 115200];
+    for (bi, baud) in bauds.iter().enumerate() {
+        for db in 0..4u8 {
+            for par in 0..3u8 {
+                for sb in 0..2u8 {
+                    for fl in 0..3u8 {
+                        // keep the table at 72 rows per baud rate but only sweep flow control on one
+                        if bi != 0 && fl != 0 {
+                            continue;
+                        }
+                        let case = json!({"table": "serial_settings", "baud": baud, "data_bits": db, "parity": par, "stop_bits": sb, "flow": fl});
+                        // ---- Rust API with the same-named values
+                        let rust_settings = rodbus::SerialSettings {
+                            baud_rate: *baud,
+                            data_bits: [rodbus::DataBits::Five, rodbus::DataBits::Six, rodbus::DataBits::Seven, rodbus::DataBits::Eight][db as usize],
+                            flow_control: [rodbus::FlowControl::None, rodbus::FlowControl::Software, rodbus::FlowControl::Hardware][fl as usize],
+                            stop_bits: [rodbus::StopBits::One, rodbus::StopBits::Two][sb as usize],
+                            parity: [rodbus::Parity::None, rodbus::Parity::Odd, rodbus::Parity::Even][par as usize],
+                        };
+                        let pty_a = Pty::open()?;
+                        let (tx, rx) = std::sync::mpsc::channel();
+                        let ch = {
+                            let _g = rt.enter();
+                            rodbus::client::spawn_rtu_client_task(
+                                &pty_a.slave_path,
+                                rust_settings,
+                                4,
+                                rodbus::doubling_retry_strategy(Duration::from_millis(50), Duration::from_millis(50)),
+                                DecodeLevel::nothing(),
+                                Some(Box::new(PortRec { tx })),
+                            )
+                        };
+                        rt.block_on(ch.enable()).map_err(|_| "enable failed")?;
+                        let mut opened = false;
+                        let t0 = Instant::now();
+                        while t0.elapsed() < Duration::from_secs(3) {
+                            if let Ok(s) = rx.recv_timeout(Duration::from_millis(50)) {
+                                if s == "Open" {
+                                    opened = true;
+                                    break;
+                                }
+                            }
+                        }
+                        if !opened {
+                            return Err(format!("INFRA: Rust serial channel did not open the pty for {}", case));
+                        }
+                        let a = pty_a.termios();
+                        drop(ch);
+                        // ---- C ABI
+                        let pty_b = Pty::open()?;
+                        let states: Arc<Mutex<Vec<i32>>> = Default::default();
+                        let listener = ffi::PortStateListener {
+                            on_change: Some(port_state_change),
+                            on_destroy: Some(h_destroy),
+                            ctx: Arc::into_raw(states.clone()) as *mut c_void,
+                        };
+                        let settings: ffi::SerialPortSettings = ffi::SerialPortSettingsFields {
+                            baud_rate: *baud,
+                            data_bits: [ffi::DataBits::Five, ffi::DataBits::Six, ffi::DataBits::Seven, ffi::DataBits::Eight][db as usize],
+                            flow_control: [ffi::FlowControl::None, ffi::FlowControl::Software, ffi::FlowControl::Hardware][fl as usize],
+                            parity: [ffi::Parity::None, ffi::Parity::Odd, ffi::Parity::Even][par as usize],
+                            stop_bits: [ffi::StopBits::One, ffi::StopBits::Two][sb as usize],
+                        }
+                        .into();
+                        let mut out: *mut rodbus_ffi::ClientChannel = std::ptr::null_mut();
+                        let path = cstr(&pty_b.slave_path);
+                        let rc = unsafe {
+                            ffi::rodbus_client_channel_create_rtu(frt.0, path.as_ptr(), settings, 4, retry_strategy(50, 50), decode_level(0, 0, 0), listener, &mut out)
+                        };
+                        if rc != 0 {
+                            return Err(format!("rodbus_client_channel_create_rtu returned {}", rc));
+                        }
+                        unsafe { ffi::rodbus_client_channel_enable(out) };
+                        let t0 = Instant::now();
+                        let open_val: i32 = ffi::PortState::Open.into();
+                        let mut opened = false;
+                        while t0.elapsed() < Duration::from_secs(3) {
+                            if states.lock().unwrap().contains(&open_val) {
+                                opened = true;
+                                break;
+                            }
+                            std::thread::sleep(Duration::from_millis(2));
+                        }
+                        let b = pty_b.termios();
+                        unsafe { ffi::rodbus_client_channel_destroy(out) };
+                        if !opened {
+                            return Err(format!("INFRA: C-ABI serial channel did not open the pty for {}", case));
+                        }
+                        rep.stats.evaluations += 1;
+                        if a != b || a.is_none() {
+                            fail(
+                                rep,
+                                format!(
+                                    "serial settings {}: the line opened through the Rust API has (iflag, cflag, speed) = {:x?}, through the C ABI with the same-named values {:x?}",
+                                    case, a, b
+                                ),
+                                case,
+                            );
+                            return Ok(());
+                        }
+                        rep.stats.nontrivial_total += 1;
+                        rep.stats.distinct.insert(crate::runner::hash_of(&format!("{}", case)));
+                    }
+                }
+            }
+        }
+    }
+    Ok(())
+}
+
 pub fn c18_tables(ctx: &Ctx) -> SearchReport {
     let mut rep = SearchReport::empty(
         "c18_tables",
-        "differential tables, every row visited: (1) 8 client operations x {12 successes with random unit/range/values, each of the 256 exception codes, malformed reply, reply of another function, silence (timeout), close, malformed MBAP header} through the Rust API and through the extern \"C\" functions against the same scripted peer: identical request bytes on the wire, identical values, error reported as the same-named ffi::RequestError value, exactly one completion callback; (2) not connected / queue full (capacity 1, silent peer) / runtime destroyed: return code and exactly one callback; (3) 4 write callbacks x WriteResult {success, 9 standard exceptions, raw 0..255}: the raw TCP client must receive the echo or [fc|0x80, code]; (4) all 36 decode levels: log classes of a C-ABI server equal those of a Rust server at the same-named level. Non-trivial = every row other than a plain success.",
+        "differential tables, every row visited: (1) 8 client operations x {12 successes with random unit/range/values, each of the 256 exception codes, malformed reply, reply of another function, silence (timeout), close, malformed MBAP header} through the Rust API and through the extern \"C\" functions against the same scripted peer: identical request bytes on the wire, identical values, error reported as the same-named ffi::RequestError value, exactly one completion callback; (2) not connected / queue full (capacity 1, silent peer) / runtime destroyed: return code and exactly one callback; (3) 4 write callbacks x WriteResult {success, 9 standard exceptions, raw 0..255}: the raw TCP client must receive the echo or [fc|0x80, code]; (4) all 36 decode levels: log classes of a C-ABI server equal those of a Rust server at the same-named level; (5) configuration pass-through: reconnect waits of a C-ABI client with retry (40 ms, 130 ms) measured through its listener; 120 serial-setting combinations (baud x data bits x parity x stop bits x flow control): termios of a pty opened through the C ABI equals termios of a pty opened through the Rust API with the same-named values. Non-trivial = every row other than a plain success.",
     );
     let steps: Vec<(&str, Box<dyn Fn(&mut SearchReport) -> Result<(), String>>)> = vec![
         ("client_table", Box::new({
@@ -1114,6 +1314,8 @@ pub fn c18_tables(ctx: &Ctx) -> SearchReport {
         ("client_conditions", Box::new(client_conditions)),
         ("server_table", Box::new(server_table)),
         ("decode_table", Box::new(decode_table)),
+        ("retry_passthrough", Box::new(retry_passthrough)),
+        ("serial_settings_table", Box::new(serial_settings_table)),
     ];
     for (name, f) in steps {
         let r = match guarded(|| f(&mut rep)) {
